@@ -243,6 +243,10 @@ func (f *Failover) Get(
 
 	// Disabling defer to unlock in background.
 	alreadyLocked = true
+
+	// Copying key, caller is allowed to reuse the slice once Get returns.
+	key = append([]byte(nil), key...)
+
 	// Spawning cache update in background.
 	go func() {
 		defer func() {
